@@ -202,19 +202,35 @@ def SVec.eraseRange (h : Heap) (v : SVec) (first last : Nat) : Heap × SVec :=
   let a := eraseLoop k n first v.impl
   (destroyRows h (a.drop (v.size - k)), ⟨a.take (v.size - k), v.cap⟩)
 
-/-- `Swapping_Vector<T>::erase(iterator itr)` (`:193`), as written:
+/-- `Swapping_Vector<T>::erase(iterator itr)` (`:193`), the code after the repair of KF-C13-17
+(commit 0369f1e: `++i;` inside the loop):
 ```
+const dimension_type old_i = itr - begin();
 dimension_type i = old_i; ++i;
-while (i != size()) { swap(impl[i-1], impl[i]); }     // `i` is never incremented
+while (i != size()) { swap(impl[i-1], impl[i]); ++i; }
 impl.pop_back();
+return begin() + old_i;
 ```
-`none`: the fuel ran out (the loop does not terminate). -/
-def eraseOneLoop : Nat → Nat → List Row → Option (List Row)
-  | 0, _, _ => none
-  | fuel + 1, i, a => if i != a.length then eraseOneLoop fuel i (swapIn (i - 1) i a) else some a
+The loop: `k` = iterations granted; `size - (old_i + 1)` suffice (`C13.swapping_vector_erase_one`
+shows the loop has reached `i = size` then, and that more fuel changes nothing). -/
+def eraseOneLoop : Nat → Nat → List Row → List Row
+  | 0, _, a => a
+  | k + 1, i, a => if i != a.length then eraseOneLoop k (i + 1) (swapIn (i - 1) i a) else a
 
-def SVec.eraseOne (fuel : Nat) (h : Heap) (v : SVec) (oldI : Nat) : Option (Heap × SVec) :=
-  match eraseOneLoop fuel (oldI + 1) v.impl with
+/-- returns the heap, the vector and the returned position `begin() + old_i` -/
+def SVec.eraseOne (h : Heap) (v : SVec) (oldI : Nat) : Heap × SVec × Nat :=
+  let a := eraseOneLoop (v.size - (oldI + 1)) (oldI + 1) v.impl
+  (destroyRows h (a.drop (a.length - 1)), ⟨a.take (a.length - 1), v.cap⟩, oldI)
+
+/-- The loop BEFORE the repair (`while (i != size()) { swap(impl[i-1], impl[i]); }` — `i` was never
+incremented; KF-C13-17, fixed by 0369f1e).  Kept as the historical witness:
+`none` = the fuel ran out (the loop did not terminate). -/
+def eraseOneLoopBeforeFix : Nat → Nat → List Row → Option (List Row)
+  | 0, _, _ => none
+  | fuel + 1, i, a => if i != a.length then eraseOneLoopBeforeFix fuel i (swapIn (i - 1) i a) else some a
+
+def SVec.eraseOneBeforeFix (fuel : Nat) (h : Heap) (v : SVec) (oldI : Nat) : Option (Heap × SVec) :=
+  match eraseOneLoopBeforeFix fuel (oldI + 1) v.impl with
   | some a => some (destroyRows h (a.drop (a.length - 1)), ⟨a.take (a.length - 1), v.cap⟩)
   | none => none
 
